@@ -93,6 +93,13 @@ new.append(entry("C04",
             {"match": "(*Segments).UnmarshalJSON", "driver": "types_text", "pkg": "types", "case": "segments"},
             {"match": "messages.lemmaDecode", "driver": "messages_decode", "pkg": "messages", "case": "all"},
             {"match": "isten$", "driver": "uhppote_listen", "pkg": "uhppote", "case": "all"}],
+    bounded_checks=[{"match": "bounded:types_render:all", "driver": "types_render", "pkg": "types", "case": "all",
+                     "functions": ["types.(TaskType).String", "types.(TaskType).MarshalJSON", "types.(Task).String", "types.(CardFormat).String", "types.(*CardFormat).UnmarshalConf"],
+                     "bound": "no panic for: the 13 task types and 2 card formats their parsers can produce (String / JSON / Task.String), CardFormat.UnmarshalConf on 8 maps (nil, empty, valid, invalid, other key); "
+                              "also ControlState / DoorControlState / Interlock String and JSON for all 256 byte values (these are proved as well)"},
+                    {"match": "bounded:uhppote_misc:all", "driver": "uhppote_misc", "pkg": "uhppote", "case": "all",
+                     "functions": ["uhppote.(*uhppote).ListenAddrList"],
+                     "bound": "no panic and the expected list for a nil client, no listen address, 0.0.0.0:60001 (the host's interfaces) and 192.168.1.100:60001"}],
     sweep=["types", "uhppote", "messages", "encoding/bcd", "encoding/UTO311-L0x"],
     sweep_exclude={
         "encoding/UTO311-L0x.Marshal": INLINED_ONLY, "encoding/UTO311-L0x.marshal": INLINED_ONLY,
@@ -100,18 +107,18 @@ new.append(entry("C04",
         "encoding/UTO311-L0x.UnmarshalAs": INLINED_ONLY, "encoding/UTO311-L0x.UnmarshalArray": INLINED_ONLY,
         "encoding/UTO311-L0x.UnmarshalArrayElement": INLINED_ONLY,
         "uhppote.(*uhppote).broadcast": INLINED_ONLY + " (inlined into GetDevices)",
-        "uhppote.(*uhppote).ListenAddrList": "engine limitation (address of a local array element inside an unrolled loop)",
+        "uhppote.(*uhppote).ListenAddrList": "engine limitation (address of a local array element inside an unrolled loop); bounded stand-in uhppote_misc (bounded_checks)",
         "uhppote.(*uhppote).tcpSendTo": "helper verified inlined into sendto$1, which establishes driver != nil and len(request) == 64",
         "uhppote.(*uhppote).udpSendTo": "helper verified inlined into sendto$1",
         "uhppote.(*uhppote).udpBroadcastTo": "helper verified inlined into sendto$1",
         "uhppote.(*uhppote).udpBroadcast": "helper of GetDevices (see there)",
         "types.(HHmm).before": "helper with a documented panic for foreign types: verified inlined into HHmm.Before (C16), whose callers pass time.Time or HHmm",
         "types.(HHmm).after": "as before",
-        "types.(TaskType).String": "string table indexed by a request-only enum: values come from the library's own parsers (1..13); not a value any operation returns",
+        "types.(TaskType).String": "string table indexed by a request-only enum: values come from the library's own parsers (1..13); not a value any operation returns; bounded stand-in types_render (bounded_checks)",
         "types.(TaskType).MarshalJSON": "as TaskType.String",
         "types.(Task).String": "calls TaskType.String (see there)",
         "types.(CardFormat).String": "string table indexed by a request-only enum (0..1 from the library's parser)",
-        "types.(*CardFormat).UnmarshalConf": "map with string keys is outside the engine's map model",
+        "types.(*CardFormat).UnmarshalConf": "map with string keys is outside the engine's map model; bounded stand-in types_render (bounded_checks)",
     },
     scope=[SAFETY],
     assumptions=COMMON_ASSUME + ["a method is called on a non-nil receiver unless its contract says otherwise", "library functions do not panic when their assumed preconditions (libpre obligations) hold",
